@@ -200,7 +200,8 @@ impl LogState {
             };
         let mut delay = Duration::from_millis(10);
         let mut was_locked = is_locked(ps, info.as_ref().map(|&(fid, ..)| fid))?;
-        let mut line_head = String::new();
+        // (bytes: a partial line may end in the middle of a multi-byte character)
+        let mut line_head: Vec<u8> = Vec::new();
         let mut width = tty_width();
         loop {
             if f.is_none() {
@@ -225,6 +226,19 @@ impl LogState {
                 // the viewer -- and with it everything that would have been shown after.
                 let mut raw = Vec::new();
                 f.read_until(b'\n', &mut raw)?;
+                if !raw.is_empty() && !raw.ends_with(b"\n") {
+                    // Part of a line.  Keep the bytes as they are until the rest has
+                    // arrived: converted piece by piece, a character that the script's
+                    // two writes happened to cut in half came out as two U+FFFD.
+                    self.total_lines += 1;
+                    delay = Duration::from_millis(10);
+                    line_head.extend_from_slice(&raw);
+                    continue;
+                }
+                if !raw.is_empty() && !line_head.is_empty() {
+                    line_head.extend_from_slice(&raw);
+                    raw = mem::take(&mut line_head);
+                }
                 String::from_utf8_lossy(&raw).into_owned()
             } else {
                 String::new()
@@ -287,15 +301,6 @@ impl LogState {
             }
             self.total_lines += 1;
             delay = Duration::from_millis(10);
-            if !line.ends_with('\n') {
-                line_head.push_str(&line);
-                continue;
-            }
-            if !line_head.is_empty() {
-                line_head.push_str(&line);
-                line = String::new();
-                mem::swap(&mut line, &mut line_head);
-            }
             if !self.status.is_empty() {
                 io::stdout().flush()?;
                 eprint!("\r{:<width$.width$}\r", "", width = width);
@@ -331,7 +336,12 @@ impl LogState {
                     line = line[pos..].to_string();
                 }
             }
-            match Meta::parse(line.trim_end_matches('\n')) {
+            // (A "record" that names nothing is a script's line, not one of ours.)
+            match Meta::parse(line.trim_end_matches('\n'))
+                .ok()
+                .filter(|g| !g.text().is_empty())
+                .ok_or(())
+            {
                 Ok(g) => {
                     // FIXME: print prefix if @@REDO is not at start of line.
                     //   logs::PrettyLog does it, but only if we actually call .write().
@@ -455,7 +465,7 @@ impl LogState {
             // comes next (the caller's "resumed", the next target's "do") is glued to it,
             // no longer starts at the beginning of a line and is not recognised as a
             // record by anything that reads this output
-            println!("{}", line_head);
+            println!("{}", String::from_utf8_lossy(&line_head));
         }
         if t.as_str() != "-" {
             let last = self.depth.pop();
